@@ -44,6 +44,19 @@ def tlc_items(ctx, module, family, tier, cfg=None, shards=1, timeout=1500, env=N
     return items, results
 
 
+def same_constants(cfg_a, cfg_b):
+    """True when two cfg files of spec/ assign the same CONSTANTS (comments ignored): then the as-built
+    configuration has no deviation left and enumerating it again adds nothing"""
+    import os
+    import re
+
+    def consts(name):
+        txt = open(os.path.join(tlc.SPEC, name)).read()
+        txt = re.sub(r"\\\*.*", "", txt)
+        return sorted(re.findall(r"(\w+)\s*=\s*(\"[^\"]*\"|\w+)", txt))
+    return consts(cfg_a) == consts(cfg_b)
+
+
 def fval(v):
     return float(ir_eval.frac(v))
 
